@@ -91,6 +91,12 @@ pub fn arg_after(args: &[String], flag: &str) -> Option<String> {
 
 /// Progress marker for crash bisection: with VERIF_BISECT set, the index of the behaviour about to
 /// run is written to stderr, so that after a crash the driver knows which one killed the child.
+/// In bisect mode (VERIF_BISECT): the operation about to be executed, so that a crash can be attributed to it.
+pub fn mark_op(op: &str) {
+    if std::env::var_os("VERIF_BISECT").is_some() {
+        eprintln!("OP {}", op);
+    }
+}
 pub fn mark(bi: usize) {
     static ON: std::sync::atomic::AtomicUsize = std::sync::atomic::AtomicUsize::new(2);
     let mut on = ON.load(std::sync::atomic::Ordering::Relaxed);
